@@ -108,7 +108,11 @@ func (srv *Server) consumeTransports(ctx context.Context) {
 		select {
 		case <-ctx.Done():
 			return
-		case t := <-srv.transportChan:
+		case t, ok := <-srv.transportChan:
+			if !ok {
+				// The queue was closed by Close
+				return
+			}
 			c := NewServerChannel(t, srv.config.ChannelBufferSize, srv.config.Node, uuid.NewString())
 			go func() {
 				srv.handleChannel(ctx, c)
